@@ -79,6 +79,9 @@ pub struct RxPolicy {
     /// receiver stays aligned with the link framing: between frames, or inside a frame
     /// whose remaining body contains no zero byte (the rest is then skipped as noise).
     pub hard_err_pm: u32,
+    /// serial port: percent of the "no data yet" answers given as `Ok(0)` instead of
+    /// `Err(TimedOut)` (some ports and pseudo-terminals report an idle line that way)
+    pub idle_ok0: u32,
 }
 
 impl RxPolicy {
@@ -91,6 +94,7 @@ impl RxPolicy {
             short_read: 0,
             interrupted: 0,
             hard_err_pm: 0,
+            idle_ok0: 0,
         }
     }
 }
@@ -754,6 +758,13 @@ impl io::Read for Dev {
         };
         match arrival {
             Arrival::NotYet => {
+                if pol.idle_ok0 > 0 && self.sim.chance(pol.idle_ok0) {
+                    self.sim.event(EV_RX, 14, avail as u64, || {
+                        format!("{}.serial.read({}) -> Ok(0) (idle, {} in flight)", self.name, buf.len(), avail)
+                    });
+                    self.sim.count("serial_idle_read_returned_zero");
+                    return Ok(0);
+                }
                 self.sim.event(EV_RX, 7, avail as u64, || {
                     format!("{}.serial.read({}) -> Err(TimedOut) ({} in flight)", self.name, buf.len(), avail)
                 });
